@@ -146,7 +146,7 @@ Proof.
     rewrite le_enc_length. lia.
   - destruct val; try discriminate. destruct (_ && _); [|discriminate]. some_inv H.
     apply enc_nat_nonempty.
-  - destruct val; try discriminate. destruct (Nat.eqb_spec (length b0) n); cbn in H; [|discriminate].
+  - destruct val; try discriminate. destruct (Nat.eqb_spec (length b0) n); cbn [andb] in H; [|discriminate].
     destruct (wf_bytes b0); [|discriminate]. some_inv H. lia.
   - destruct val; try discriminate. destruct (_ && _); [|discriminate]. some_inv H.
     rewrite app_length. pose proof (enc_nat_nonempty (N.of_nat (length b0))). lia.
@@ -207,18 +207,18 @@ Proof.
   induction d as [w|bd|n| | |n|lim d IH|n d IH|d IH|alts IH|k v IHk IHv|ds IH] using desc_ind';
     intros val b H; cbn [enc] in *.
   - destruct val; try discriminate. destruct (_ <? _); [|discriminate]. some_inv H. apply le_enc_wf.
-  - destruct val; try discriminate. destruct (x <? bd); cbn in H; [|discriminate].
+  - destruct val; try discriminate. destruct (x <? bd); cbn [andb] in H; [|discriminate].
     destruct (N.ltb_spec x two64); [|discriminate]. some_inv H. now apply enc_nat_wf'.
-  - destruct val; try discriminate. destruct (Nat.eqb _ _); cbn in H; [|discriminate].
+  - destruct val; try discriminate. destruct (Nat.eqb _ _); cbn [andb] in H; [|discriminate].
     destruct (wf_bytes b0) eqn:W; [|discriminate]. some_inv H. exact W.
-  - destruct val; try discriminate. destruct (N.ltb_spec (N.of_nat (length b0)) two64); cbn in H; [|discriminate].
+  - destruct val; try discriminate. destruct (N.ltb_spec (N.of_nat (length b0)) two64); cbn [andb] in H; [|discriminate].
     destruct (wf_bytes b0) eqn:W; [|discriminate]. some_inv H.
     apply wf_bytes_app. split; [now apply enc_nat_wf'|exact W].
-  - destruct val; try discriminate. destruct (N.ltb_spec (N.of_nat (length b0)) two64); cbn in H; [|discriminate].
+  - destruct val; try discriminate. destruct (N.ltb_spec (N.of_nat (length b0)) two64); cbn [andb] in H; [|discriminate].
     destruct (wf_bytes b0) eqn:W; [|discriminate]. some_inv H.
     apply wf_bytes_app. split; [now apply enc_nat_wf'|]. apply wf_bytes_app. split; [now apply enc_nat_wf'|exact W].
   - destruct val; try discriminate. destruct (_ <? _); [|discriminate]. some_inv H. apply le_enc_wf.
-  - destruct val; try discriminate. destruct (_ <=? _); cbn in H; [|discriminate].
+  - destruct val; try discriminate. destruct (_ <=? _); cbn [andb] in H; [|discriminate].
     destruct (N.ltb_spec (N.of_nat (length l)) two64); [|discriminate].
     destruct (enc_all _ _) as [b'|] eqn:E; [|discriminate]. some_inv H.
     apply wf_bytes_app. split; [now apply enc_nat_wf'|]. eapply enc_all_wf; [exact IH|exact E].
@@ -233,7 +233,7 @@ Proof.
     destruct (enc da val) as [b'|] eqn:E; [|discriminate]. some_inv H.
     apply wf_bytes_cons. split; [assumption|].
     rewrite Forall_forall in IH. apply (IH _ (assoc_In _ _ _ A)) in E. exact E.
-  - destruct val; try discriminate. destruct (N.ltb_spec (N.of_nat (length l)) two64); cbn in H; [|discriminate].
+  - destruct val; try discriminate. destruct (N.ltb_spec (N.of_nat (length l)) two64); cbn [andb] in H; [|discriminate].
     destruct (strict_sorted _); [|discriminate].
     destruct (enc_all _ _) as [b'|] eqn:E; [|discriminate]. some_inv H.
     apply wf_bytes_app. split; [now apply enc_nat_wf'|].
@@ -282,7 +282,7 @@ Proof.
   unfold count_fits. rewrite app_length.
   destruct (N.leb_spec (N.of_nat (length vs)) lim); [|lia].
   destruct (N.leb_spec (N.of_nat (length vs)) (N.of_nat (length b + length r))); [|nia].
-  cbn [andb]. rewrite Nat2N.id. now apply rep_enc_all.
+  cbn [andb]. rewrite Nat2N.id. now apply (rep_enc_all g f).
 Qed.
 
 Theorem roundtrip d : wf_desc d = true -> rt (enc d) (dec d).
@@ -296,22 +296,22 @@ Proof.
     rewrite firstn_app_exact, skipn_app_exact by apply le_enc_length.
     now rewrite le_dec_enc_small.
   - (* DNat *)
-    destruct val; try discriminate. destruct (N.ltb_spec x bd); cbn in H; [|discriminate].
+    destruct val; try discriminate. destruct (N.ltb_spec x bd); cbn [andb] in H; [|discriminate].
     destruct (N.ltb_spec x two64); [|discriminate]. some_inv H.
     rewrite dec_enc by assumption. destruct (N.ltb_spec x bd); [reflexivity|lia].
   - (* DFix *)
-    destruct val; try discriminate. destruct (Nat.eqb_spec (length b0) n); cbn in H; [|discriminate].
+    destruct val; try discriminate. destruct (Nat.eqb_spec (length b0) n); cbn [andb] in H; [|discriminate].
     destruct (wf_bytes b0); [|discriminate]. some_inv H. rewrite app_length.
     destruct (Nat.ltb_spec (length b + length r) (length b)); [lia|].
     now rewrite firstn_app_exact, skipn_app_exact.
   - (* DBlob *)
-    destruct val; try discriminate. destruct (N.ltb_spec (N.of_nat (length b0)) two64); cbn in H; [|discriminate].
+    destruct val; try discriminate. destruct (N.ltb_spec (N.of_nat (length b0)) two64); cbn [andb] in H; [|discriminate].
     destruct (wf_bytes b0); [|discriminate]. some_inv H.
     rewrite <- app_assoc, dec_enc by assumption. unfold count_fits. rewrite app_length.
     destruct (N.leb_spec (N.of_nat (length b0)) (N.of_nat (length b0 + length r))); [|lia].
     rewrite Nat2N.id. now rewrite firstn_app_exact, skipn_app_exact.
   - (* DBlob2 *)
-    destruct val; try discriminate. destruct (N.ltb_spec (N.of_nat (length b0)) two64); cbn in H; [|discriminate].
+    destruct val; try discriminate. destruct (N.ltb_spec (N.of_nat (length b0)) two64); cbn [andb] in H; [|discriminate].
     destruct (wf_bytes b0); [|discriminate]. some_inv H.
     rewrite <- !app_assoc, dec_enc by assumption. rewrite dec_enc by assumption.
     unfold count_fits. rewrite app_length, N.eqb_refl.
@@ -327,7 +327,7 @@ Proof.
   - (* DSeq *)
     destruct val as [| |vs| |]; try discriminate.
     apply andb_true_iff in Hwf. destruct Hwf as [Hwf Hd]. apply andb_true_iff in Hwf. destruct Hwf as [Hl Hm].
-    destruct (N.leb_spec (N.of_nat (length vs)) lim); cbn in H; [|discriminate].
+    destruct (N.leb_spec (N.of_nat (length vs)) lim); cbn [andb] in H; [|discriminate].
     destruct (N.ltb_spec (N.of_nat (length vs)) two64); [|discriminate].
     destruct (enc_all (enc d) vs) as [b'|] eqn:E; [|discriminate]. some_inv H.
     erewrite dec_counted_enc; [reflexivity|exact (IH Hd)| |apply enc_min_size|assumption|assumption|exact E].
@@ -350,7 +350,7 @@ Proof.
   - (* DMap *)
     destruct val as [| |es| |]; try discriminate.
     apply andb_true_iff in Hwf. destruct Hwf as [Hwf Hv]. apply andb_true_iff in Hwf. destruct Hwf as [Hm Hk].
-    destruct (N.ltb_spec (N.of_nat (length es)) two64) as [H64|]; cbn in H; [|discriminate].
+    destruct (N.ltb_spec (N.of_nat (length es)) two64) as [H64|]; cbn [andb] in H; [|discriminate].
     destruct (strict_sorted (map entry_key es)) eqn:Hs; [|discriminate].
     destruct (enc_all _ es) as [b'|] eqn:E; [|discriminate]. some_inv H.
     erewrite dec_counted_enc with (m := (min_size k + min_size v)%nat);
